@@ -40,7 +40,10 @@ CONSTRAINTS = [
     'forall <var> v in start: nosuchpredicate(v, v)',      # unknown predicate
     'exists <assgn> a="{<var> l} := {<rhs> r}" in start: (= l r)',
 ]
-INPUTS = ["a := 1", "a := b ; b := 1", "c := 1", "b := 0", "a := a", "", "\n", "a :=", "x", "a := 1\n", "@json"]
+INPUTS = ["a := 1", "a := b ; b := 1", "c := 1", "b := 0", "a := a", "", "\n", "a :=", "x", "a := 1\n", "@json",
+          # valid JSON that is no derivation tree (must be treated as a plain, here non-member, string), and a JSON tree that
+          # is not a tree of the grammar
+          "2", "null", "[1]", '["<start>", [["<stmt>", []]]]']
 COMMANDS = ["check", "parse", "find"]
 WORK = os.environ.get("VERIF_WORK", tempfile.gettempdir())
 
